@@ -97,7 +97,7 @@ class Adapter(EnvAdapter):
         if tier == "quick":
             return [
                 # CVRP-v1: 20 customers, capacity 30, max demand 10, dense (21 probes per probed state)
-                _c("u20_c30_d10_dense", "uniform", 20, 30, 10, "dense", 3, probe_every=3,
+                _c("u20_c30_d10_dense", "uniform", 20, 30, 10, "dense", 3, probe_every=3, default_ctor=True,
                    policies=["masked", "zigzag", "mostly_masked"]),
                 _c("u20_c10_d10_sparse", "uniform", 20, 10, 10, "sparse", 2, probe_every=3,
                    policies=["nearest", "masked"]),                                      # tight
@@ -136,6 +136,9 @@ class Adapter(EnvAdapter):
             for rew in ("dense", "sparse"):
                 out.append(_c(f"z{n}_c{cap}_d{dem}_{rew}", "lattice0", n, cap, dem, rew, 20 if n <= 6 else 6, policies=POL5,
                               probe_every=1 if n <= 6 else 2))
+        for c in out:       # the registered default is built by the library's own no-argument constructor
+            if c["id"] == "u20_c30_d10_dense":
+                c["default_ctor"] = True
         return out
 
     # ---- the real environment -------------------------------------------------------------
@@ -150,6 +153,10 @@ class Adapter(EnvAdapter):
         return CVRP(generator=gen, reward_fn=DenseReward() if rew == "dense" else SparseReward())
 
     def make(self, cfg):
+        if cfg.get("default_ctor"):       # the documented defaults come from the library's own no-argument constructor
+            from jumanji.environments.routing.cvrp import CVRP
+
+            return CVRP()
         return self._build(cfg["ctor"], cfg["ctor"]["reward_fn"])
 
     def make_alt(self, cfg):
